@@ -4,6 +4,8 @@ import (
 	"bytes"
 	"fmt"
 	"strings"
+
+	"github.com/textwire/textwire/v2/utils"
 )
 
 type Obj struct {
@@ -22,7 +24,9 @@ func (o *Obj) String() string {
 	idx := 0
 	last := len(o.Pairs) - 1
 
-	for key, pair := range o.Pairs {
+	for _, key := range utils.SortedKeys(o.Pairs) {
+		pair := o.Pairs[key]
+
 		out.WriteString(key + ": " + pair.String())
 
 		if idx != last {
@@ -48,7 +52,9 @@ func (o *Obj) Dump(ident int) string {
 
 	insideSpaces := strings.Repeat("  ", ident)
 
-	for key, pair := range o.Pairs {
+	for _, key := range utils.SortedKeys(o.Pairs) {
+		pair := o.Pairs[key]
+
 		out.WriteString(insideSpaces)
 		out.WriteString(`<span class="textwire-prop">"` + key + `"</span>`)
 		out.WriteString(": ")
